@@ -164,6 +164,13 @@ example : ((turn Gd exCfg none "hi" none (.general "fine")).map fun o =>
       ((compute K o.log).toOption.map fun g => (ioKeys g.rails, g.rails.length, g.llmCalls), o.reply))
     = some (some ([⟨.input, "in0", false⟩, ⟨.input, "in1", false⟩, ⟨.output, "out0", false⟩], 4, 1), .text "fine") := by decide
 
+/-- … and the rail that carries the `stop` flag is the one the documented chain names: the first input rail that
+    rejects / faults, else the first output rail that does (selections without dialog rails). -/
+theorem blocker_is_rejecting_rail (cfg : Cfg) (o : Opts) (hd : o.dialog = false) (user : String) (bot : Option String) (dlg : Dialog)
+    (out : PipelineOpts.Out) (h : turn Gd cfg (some o) user bot dlg = some out) : out.blocker = tableBlocker cfg o user bot := by
+  rw [turn_eq] at h; cases h
+  exact turnCoreR_blocker_off cfg o hd user bot dlg
+
 /-- the same for arbitrary literal tables (the statement does not depend on which flows / actions are ignored) -/
 theorem stop_on_blocker_any_tables (K' : Consts) (L : List LogEv) (out : GenLog.Out) (h : compute K' L = .ok out)
     (hn : ∀ k ∈ stopSpec L, k.name ≠ K'.relabelName) : ioKeys out.rails = stopSpec L :=
